@@ -196,6 +196,8 @@ def judge(out, beh):
         mo['last'] = real2['last']          # _ltid is not recomputed by a pack (see ZStorage.ltid)
         mo.pop('linv', None)
         mo.pop('riter', None)
+        for k in ('itf', 'itt', 'ulw'):
+            mo.pop(k, None)
         sd.diff('obs', mo, real2, mm)
         if mm:
             v.append(({'kind': 'sched', 'what': what, 'when': 'in-memory' if label == 'obs' else 'after-reopen'},
